@@ -13,7 +13,7 @@ from pyasn1.codec.streaming import asSeekableStream
 from pyasn1.codec.streaming import isEndOfStream
 from pyasn1.codec.streaming import peekIntoStream
 from pyasn1.codec.streaming import readFromStream
-from pyasn1.compat.integer import from_bytes
+from pyasn1.compat.integer import from_bytes, toText
 from pyasn1.compat.octets import oct2int, octs2ints, ints2octs, null
 from pyasn1.error import PyAsn1Error
 from pyasn1.type import base
@@ -421,7 +421,8 @@ class ObjectIdentifierPayloadDecoder(AbstractSimplePayloadDecoder):
                     subId = (subId << 7) + (nextSubId & 0x7F)
                     if index >= substrateLen:
                         raise error.SubstrateUnderrunError(
-                            'Short substrate for sub-OID past %s' % (oid,)
+                            'Short substrate for sub-OID past %s' % (
+                                '.'.join([toText(x) for x in oid]),)
                         )
                     nextSubId = chunk[index]
                     index += 1
